@@ -164,6 +164,7 @@ func (s *supervisor) processDied(r *processorRequestDied) {
 	// Okay, so a Runnable has quit. What now?
 	n := s.nodeByDN(r.dn)
 	ctx := n.ctx
+	n.exited = true
 
 	// Simple case: it was marked as Done and quit with no error.
 	if n.state == nodeStateDone && r.err == nil {
@@ -304,11 +305,13 @@ func (s *supervisor) processGC() {
 			}
 		}
 
-		// In addition to children, the node itself must be restartable (ie. DONE, DEAD or CANCELED).
+		// In addition to children, the node itself must be restartable (ie. DEAD, CANCELED, or DONE and returned).
 		curReady := false
 		switch cur.state {
 		case nodeStateDone:
-			curReady = true
+			// A DONE runnable may still be running: it must have returned before it (or an ancestor) can be
+			// restarted, otherwise two instances of it would run at once.
+			curReady = cur.exited
 		case nodeStateCanceled:
 			curReady = true
 		case nodeStateDead:
